@@ -66,6 +66,11 @@ def gen_case(rng):
         p['scale'] = rng.choice([1e4, 1e8])
     # the contract is relative: the whole tensor may be tiny or huge (10^-+k, k up to 30; far below machine epsilon too)
     p['global_scale'] = rng.choice([0, 0, 0, -30, -20, -17, -12, 12, 25])
+    # history dimension: the operand is itself the output of an earlier round() whose core k was then replaced through
+    # set_core by a rank-deficient core; rounding must depend on the cores only, not on what the object went through
+    p['history'] = None
+    if cls in ('random', 'overparam', 'padded', 'inflated') and rng.random() < 0.35:
+        p['history'] = {'eps1': rng.choice([1e-13, 1e-6, 1e-2]), 'k': rng.randint(0, 6), 'vseed': rng.getrandbits(31), 'dup': rng.random() < 0.7}
     if cls == 'inflated':
         # k-fold sum with singleton modes: ranks >= 10 next to mode size 1 make the SVD input tall (transposed branch)
         p['fold'] = rng.choice([3, 4, 5])
@@ -275,6 +280,18 @@ def exec_case(p, res, plans=None, rng=None):
     stats = res['stats']
     out = []
     x, known, generic = build(p)
+    if p.get('history') and len(x.cores) > 1:
+        h = p['history']
+        x = x.round(h['eps1'])
+        k = h['k'] % len(x.cores)
+        c = x.cores[k]
+        gh = gen.vgen(h['vseed'])
+        new = gen.randn(list(c.shape), p['dt'], gh)
+        if h['dup'] and new.shape[-1] > 1:
+            new[..., -1] = new[..., 0] * 0.5          # last rank slice dependent on the first: the bond is rank deficient now
+        x.set_core(k, new)
+        known = None
+        core.bump(stats, 'probe.operand_with_history')
     if p.get('global_scale'):
         f_ = 10.0 ** p['global_scale']
         d_ = len(x.cores)
@@ -317,6 +334,13 @@ def exec_case(p, res, plans=None, rng=None):
         core.bump(stats, 'probe.error_above_0.9_eps')
     if any(r1 < r0 for r0, r1 in zip(gen.ints(x.R), gen.ints(y0.R))):
         core.bump(stats, 'probe.rank_reduced')
+    if p.get('history') and c is None:
+        # the same cores wrapped in a fresh object must round to the same thing (round is a function of the cores)
+        fresh = TT([cc.clone() for cc in x.cores])
+        yr = fresh.round(p['eps']) if p['rmax'] is None else fresh.round(p['eps'], p['rmax'])
+        if gen.ints(yr.R) != gen.ints(y0.R) or gen.fro(gen.dense(yr) - gen.dense(y0)) > 1e-12 * max(gen.fro(ref), 1e-300):
+            out.append(core.violation(PROP, 'HISTORY', 'round', 'depends_on_history', 'round() of an object that was rounded and then modified through set_core gives ranks %s; the same cores in a fresh object give %s' % (
+                gen.ints(y0.R), gen.ints(yr.R)), desc0))
     full0 = gen.dense(y0)
     if plans is None:
         plans = svdfault.enumerate_plans(rng, n) if rng is not None else []
@@ -392,3 +416,5 @@ def shrink_candidates(desc):
         yield {'case': dict(p, rmax=None), 'plan': plan}
     if p['ttm']:
         yield {'case': dict(p, ttm=False), 'plan': plan}
+    if p.get('history'):
+        yield {'case': dict(p, history=None), 'plan': plan}
